@@ -101,7 +101,7 @@ def expand(task):
 
 def run(ctx):
   if ctx.quick:
-    plans = [({'backends': ['ram'], 'max_trials': 2, 'max_meas': 1, 'max_ops': 2, 'max_id': 3}, 4),
+    plans = [({'backends': ['ram'], 'max_trials': 2, 'max_meas': 1, 'max_ops': 2, 'max_id': 3}, 5),
              ({'backends': ['sqlmem'], 'max_trials': 2, 'max_meas': 1, 'max_ops': 2, 'max_id': 3}, 3)]
   else:
     plans = [({'backends': ['ram'], 'max_trials': 3, 'max_meas': 2, 'max_ops': 3, 'max_id': 5}, 7),
